@@ -162,3 +162,61 @@ def conj_parity(p: Path) -> int:
 
 def all_classes_with_method(pm: PM, meth: str) -> list[ClassInfo]:
     return [c for c in pm.classes.values() if meth in c.methods]
+
+
+def resolve_single(ff: FuncFacts, e: ast.expr, at: int) -> tuple[ast.expr, int]:
+    """follow locals that have exactly one reaching plain assignment"""
+    seen = 0
+    while isinstance(e, ast.Name) and seen < 12:
+        defs = ff.rd.reaching(e.id, at)
+        if len(defs) == 1 and defs[0].kind == "assign" and not defs[0].index:
+            e, at = defs[0].value, defs[0].node
+            seen += 1
+        else:
+            break
+    return e, at
+
+
+def _size_source(ff: FuncFacts, e: ast.expr, at: int) -> str | None:
+    """text describing what a sample-count expression measures, or None if it is not a size"""
+    e, at = resolve_single(ff, e, at)
+    t = norm(e)
+    if isinstance(e, ast.Attribute) and e.attr == "size":
+        return t
+    if isinstance(e, ast.Subscript) and isinstance(e.value, ast.Attribute) and e.value.attr == "shape":
+        return t
+    if isinstance(e, ast.Call) and isinstance(e.func, ast.Name) and e.func.id == "len":
+        return t
+    if isinstance(e, ast.Name):
+        # tuple unpacking n, p = X.shape
+        defs = ff.rd.reaching(e.id, at)
+        if len(defs) == 1 and defs[0].index and isinstance(defs[0].value, ast.Attribute) and defs[0].value.attr == "shape":
+            return f"{norm(defs[0].value)}[{defs[0].index[0]}]"
+    return None
+
+
+def denominator_kind(ff: FuncFacts, e: ast.expr, at: int) -> tuple[str, str]:
+    """classify a normalising denominator: ('N-1' | 'N' | 'other', description of N)"""
+    e, at = resolve_single(ff, e, at)
+    if isinstance(e, ast.BinOp) and isinstance(e.op, ast.Sub) and isinstance(e.right, ast.Constant) and e.right.value == 1:
+        src = _size_source(ff, e.left, at)
+        if src is not None:
+            return "N-1", src
+        return "other", norm(e)
+    src = _size_source(ff, e, at)
+    if src is not None:
+        return "N", src
+    return "other", norm(e)
+
+
+def variance_ddof(fn: FuncInfo) -> int | None:
+    """ddof of the single ``.var(...)``/``.std(...)`` call a helper returns (None if not found)."""
+    for c in walk_no_nested(fn.node):
+        if isinstance(c, ast.Call) and isinstance(c.func, ast.Attribute) and c.func.attr in ("var", "std"):
+            d = call_kwargs(c).get("ddof")
+            if d is None:
+                return 0
+            if isinstance(d, ast.Constant) and isinstance(d.value, int):
+                return d.value
+            return None
+    return None
